@@ -1267,5 +1267,9 @@ func main() {
 			panic(r)
 		}
 	}()
-	run(*repo, *outDir, *printDigest)
+	absOut, err := filepath.Abs(*outDir)
+	if err != nil {
+		panic(fatal{err.Error()})
+	}
+	run(*repo, absOut, *printDigest)
 }
